@@ -55,6 +55,18 @@ def anc_in(g, T, C):
     return out
 
 
+def recursion_depth(g, T, C):
+    """How many times identify_district_variables recurses on (C, T): each level takes A = An(C) in G_T and the district of C in G_A."""
+    depth, T = 0, sorted(T)
+    for _ in range(len(T) + 1):
+        A = anc_in(g, T, C)
+        if A == set(C) or A == set(T):
+            return depth
+        T2 = next(d for d in districts(g, A) if set(C) <= set(d))
+        depth, T = depth + 1, T2
+    return depth
+
+
 def swapped_topo(rng, g, topo, prefer=()):
     """Another valid order: swap one adjacent pair the graph does not order, preferably both inside `prefer`
     (falls back to a fresh random order)."""
@@ -135,6 +147,29 @@ class C17(PropBase):
                 cases.append({"g": g, "topo": topo, "topo2": None, "T": sorted(T), "C": C or T[:1], "pop": rng.random() < 0.25, "condq": sorted(Z)})
                 continue
             g = GG.rand_admg(rng, 2, 6)
+            if rng.random() < 0.15:
+                # several recursion levels: a directed chain through the whole graph, many bidirected edges, and the (T, C) with the deepest
+                # recursion among the sampled candidates (Lemma 3 is then applied to expressions Lemma 4 produced, more than once)
+                k = rng.randint(5, 7)
+                order = list(range(k)); rng.shuffle(order)
+                di = [[order[i], order[i + 1]] for i in range(k - 1) if rng.random() < 0.85]
+                di += [[order[i], order[j]] for i in range(k) for j in range(i + 2, k) if rng.random() < 0.1]
+                bi = [[order[i], order[j]] for i in range(k) for j in range(i + 1, k) if rng.random() < 0.35]
+                g = {"nodes": sorted(order), "dir": di, "bid": bi}
+                topo = rand_topo(rng, g)
+                best = None
+                for T in districts(g, g["nodes"]):
+                    for _ in range(25):
+                        cand = sorted(rng.sample(T, rng.randint(1, min(2, len(T)))))
+                        if len(districts(g, cand)) != 1:
+                            continue
+                        d = recursion_depth(g, T, cand)
+                        if best is None or d > best[0]:
+                            best = (d, T, cand)
+                if best is not None:
+                    _, T, C = best
+                    cases.append({"g": g, "topo": topo, "topo2": swapped_topo(rng, g, topo, anc_in(g, T, C)), "T": T, "C": C, "pop": rng.random() < 0.2})
+                continue
             if rng.random() < 0.4:  # large districts, sparse directed part: Lemma 4 with incomparable variables inside An(C)
                 g = GG.rand_admg(rng, 4, 6)
                 extra = [[a, b] for a in g["nodes"] for b in g["nodes"] if a < b and [a, b] not in g["bid"] and [b, a] not in g["bid"] and rng.random() < 0.4]
